@@ -1157,6 +1157,166 @@ def regenerate_readers(ast=None):
     return {"T8": status}
 
 
+# ------------------------------------------------------------------------------------ T9
+# small step functions without a read: conditions on fields of the object and of the selected
+# command, assignments, helper calls, early returns, a `switch (self->cmd_type)`: Gen/Steps.lean.
+# `Proofs/Steps.lean` proves the model's functions equal to them (ghost checks aside).
+
+GEN_STEPS = os.path.join(lib.LEAN, "CatVerif/Gen/Steps.lean")
+EXPECTED_STEPS = os.path.join(lib.LEAN, "CatVerif/Gen/Steps.expected.lean")
+STEPS = ["process_io_write_wait", "unsolicited_process_io_write_wait", "process_hold_state", "command_not_found", "command_found"]
+CMDFLAG = {"only_test": "onlyTest", "implicit_write": "implicitWrite"}
+CMDPTR = {"run": "hasRun", "read": "hasRead", "write": "hasWrite", "test": "hasTest"}
+STEP_CALL = dict(VOID_CALL)
+STEP_CALL["start_processing_format_read_args"] = "startFormatRead D s {f}"
+
+
+def _cmd_member(n):
+    """self->cmd->X -> 'X'"""
+    n = strip(n)
+    if n.get("kind") == "MemberExpr" and _member_path(n["inner"][0]) == "cmd":
+        return n["name"]
+    return None
+
+
+def _step_cond(c):
+    c = strip(c)
+    if c.get("kind") == "BinaryOperator" and c.get("opcode") in ("==", "!=", "<", ">", "<=", ">="):
+        op = c["opcode"]
+        lhs, rhs = c["inner"][0], c["inner"][1]
+        cm = _cmd_member(lhs)
+        if cm in CMDFLAG and op in ("==", "!="):
+            v = _rhs(rhs, "bool", [], {})
+            pos = (op == "!=") == (v == "false")
+            return ("(D.cmdD s.cmd).%s" if pos else "!(D.cmdD s.cmd).%s") % CMDFLAG[cm]
+        if cm in CMDPTR and op in ("==", "!="):
+            if _rhs(rhs, "ptr", [], {}) != "none":
+                raise Unrecognised("T9: handler compared with something other than NULL")
+            return ("!(D.cmdD s.cmd).%s" if op == "==" else "(D.cmdD s.cmd).%s") % CMDPTR[cm]
+        path = _member_path(lhs)
+        if path in FIELD:
+            f, kind = FIELD[path]
+            if kind in ("nat", "int", "bool", "cstate", "ustate", "wstate") and (op in ("==", "!=") or kind in ("nat", "int")):
+                return "s.%s %s %s" % (f, op.replace(">=", "≥").replace("<=", "≤"), _rhs(rhs, kind, [], {}))
+    raise Unrecognised("T9: unrecognised condition")
+
+
+def _block(n):
+    return n.get("inner", []) if n.get("kind") == "CompoundStmt" else [n]
+
+
+def _terminal(sts):
+    sts = [x for x in sts if not is_noise(x)]
+    return bool(sts) and sts[-1].get("kind") in ("ReturnStmt", "BreakStmt")
+
+
+def _check_ret(st):
+    if st.get("kind") == "ReturnStmt":
+        r = strip(st["inner"][0]).get("referencedDecl", {}).get("name") if st.get("inner") else None
+        if r != "CAT_STATUS_BUSY":
+            raise Unrecognised("T9: return of something other than CAT_STATUS_BUSY")
+
+
+def _step_seq(sts, ind):
+    """statement list -> Lean expression of type St over the variable s (every return is BUSY)"""
+    sts = [x for x in sts if not is_noise(x)]
+    if not sts:
+        return "s"
+    st, rest = sts[0], sts[1:]
+    k = st.get("kind")
+    e = strip(st)
+    if k in ("ReturnStmt", "BreakStmt"):
+        _check_ret(st)
+        return "s"
+    if k == "IfStmt":
+        th = _block(st["inner"][1])
+        el = _block(st["inner"][2]) if len(st["inner"]) > 2 else []
+        c = _step_cond(st["inner"][0])
+        if _terminal(th):
+            return "(if %s then %s\n%selse %s)" % (c, _step_seq(th, ind + "  "), ind, _step_seq(el + rest, ind + "  "))
+        if el and _terminal(el):
+            return "(if %s then %s\n%selse %s)" % (c, _step_seq(th + rest, ind + "  "), ind, _step_seq(el, ind + "  "))
+        return "(let s : St := (if %s then %s\n%selse %s)\n%s%s)" % (c, _step_seq(th, ind + "  "), ind, _step_seq(el, ind + "  "), ind,
+                                                                  _step_seq(rest, ind))
+    if k == "SwitchStmt":
+        if _member_path(st["inner"][0]) != "cmd_type":
+            raise Unrecognised("T9: switch on something other than cmd_type")
+        if any(x.get("kind") != "ReturnStmt" for x in rest if not is_noise(x)):
+            raise Unrecognised("T9: statements after the switch")
+        arms = switch_arms(st, None, None)
+        chain, default = [], "s"
+        for labels, stmts in arms:
+            if "default" in labels:
+                if len(labels) != 1:
+                    raise Unrecognised("T9: default shares an arm")
+                default = _step_seq(stmts, ind + "  ")
+            else:
+                for l in labels:
+                    if l not in CTYPE:
+                        raise Unrecognised("T9: unknown request type %s" % l)
+                chain.append((" || ".join("s.cmdType == %s" % CTYPE[l] for l in labels), _step_seq(stmts, ind + "  ")))
+        txt = ""
+        for cond, ex in chain:
+            txt += "if %s then %s\n%selse " % (cond, ex, ind)
+        return "(" + txt + default + ")"
+    if e.get("kind") == "BinaryOperator" and e.get("opcode") == "=":
+        lhs = strip(e["inner"][0])
+        if lhs.get("kind") == "ArraySubscriptExpr":
+            if not _is_self_call(lhs["inner"][0], "get_atcmd_buf"):
+                raise Unrecognised("T9: store through something other than the command buffer")
+            i, v = strip(lhs["inner"][1]), strip(e["inner"][1])
+            if i.get("kind") != "IntegerLiteral" or v.get("kind") != "IntegerLiteral":
+                raise Unrecognised("T9: non-constant buffer store")
+            return "(let s : St := setB D s .cmd %s %s\n%s%s)" % (i["value"], v["value"], ind, _step_seq(rest, ind))
+        path = _member_path(lhs)
+        if path not in FIELD:
+            raise Unrecognised("T9: assignment to unknown field %s" % path)
+        f, kind = FIELD[path]
+        return "(let s : St := { s with %s := %s }\n%s%s)" % (f, _rhs(e["inner"][1], kind, [], {}), ind, _step_seq(rest, ind))
+    if e.get("kind") == "CallExpr":
+        name, fsm = _call_of(e)
+        if name not in STEP_CALL:
+            raise Unrecognised("T9: call of %s" % name)
+        term = STEP_CALL[name].replace("{f}", fsm or "?")
+        if "?" in term:
+            raise Unrecognised("T9: missing fsm argument")
+        return "(let s : St := %s\n%s%s)" % (term, ind, _step_seq(rest, ind))
+    raise Unrecognised("T9: unrecognised statement (%s)" % k)
+
+
+def t9(ast):
+    defs = []
+    for name in STEPS:
+        _, body = find_fn(ast, name)
+        sts = [x for x in body.get("inner", []) if not is_noise(x)]
+        if not sts or sts[-1].get("kind") != "ReturnStmt":
+            raise Unrecognised("T9: %s does not end with a return" % name)
+        _check_ret(sts[-1])
+        defs.append("/-- `%s` of src/cat.c -/\ndef %s (D : Desc) (s : St) : St × Int :=\n  (%s, Gen.CAT_STATUS_BUSY)"
+                    % (name, name, _step_seq(sts, "    ")))
+    hdr = ("/-\n  GENERATED by tools/translate.py from small step functions of src/cat.c (T9). Do not edit.\n"
+           "  `Proofs/Steps.lean` proves the model's functions equal to these.\n-/\n"
+           "import CatVerif.Model.Fsm\nnamespace Cat.Gen\nopen Cat St\nset_option linter.unusedVariables false\n\n")
+    return hdr + "\n\n".join(defs) + "\n\nend Cat.Gen\n"
+
+
+def regenerate_steps(ast=None):
+    try:
+        txt = t9(ast or load_ast())
+        status = "translated"
+    except Exception as ex:
+        if not os.path.exists(EXPECTED_STEPS):
+            return {"T9": "failed: " + repr(ex)[:200]}
+        txt = open(EXPECTED_STEPS).read()
+        status = "fallback to expected text: " + repr(ex)[:200]
+    with lib.Lock("gen"):
+        old = open(GEN_STEPS).read() if os.path.exists(GEN_STEPS) else ""
+        if old != txt:
+            with open(GEN_STEPS, "w") as f:
+                f.write(txt)
+    return {"T9": status}
+
+
 def expected_defs():
     """name -> definition text from the committed expected copy (for fallbacks)"""
     txt = open(EXPECTED).read()
@@ -1218,6 +1378,7 @@ def regenerate():
     rep.update(regenerate_dispatch())
     rep.update(regenerate_setters())
     rep.update(regenerate_readers())
+    rep.update(regenerate_steps())
     fall = {k: v for k, v in rep.items() if not v.startswith("translated")}
     return {"status": "ok", "changed_vs_expected": txt != exp, "fallbacks": fall, "items": len(rep),
             "sha": hashlib.sha256(txt.encode()).hexdigest()[:12]}
